@@ -16,8 +16,12 @@ extern LZMA_API(lzma_ret)
 lzma_easy_encoder(lzma_stream *strm, uint32_t preset, lzma_check check)
 {
 	lzma_options_easy opt_easy;
-	if (lzma_easy_preset(&opt_easy, preset))
+	if (lzma_easy_preset(&opt_easy, preset)) {
+		// Like with other initialization failures, free the
+		// coder that *strm possibly has from an earlier use.
+		lzma_end(strm);
 		return LZMA_OPTIONS_ERROR;
+	}
 
 	return lzma_stream_encoder(strm, opt_easy.filters, check);
 }
